@@ -1182,10 +1182,27 @@ class SeqCases:
     def raw(case):
         return case[2] if case[0] in ("seq", "var") else case
 
+    WORLD = ("dyn", "dynpair")       # oracle-only cases on the small world of own doers: ("dyn" | "dynpair", params)
+
     @staticmethod
     def base(case):
         """what the model is asked and the oracles judge (waiters compiled to the script the property predicts)"""
+        if case[0] in SeqCases.WORLD:
+            return ("run", dict(case[1])["tock"], dict(case[1])["start"], None, [], [])
         return compile_waiters(case[2] if case[0] in ("seq", "var") else case)
+
+    def world_shrink(self, case):
+        g = dict(case[1])
+        for k in range(len(g["ops"])):
+            g2 = dict(g, ops=g["ops"][:k] + g["ops"][k + 1:])
+            yield (case[0], tuple(sorted(g2.items())))
+        used = {op[0] for op in g["ops"]} | {t for op in g["ops"] if op[2][0] in ("remove", "extend") for t in op[2][1]}
+        for key in ("doers", "pool"):
+            for k, d in enumerate(g[key]):
+                if d[0] not in used and (key == "pool" or len(g[key]) > 1):
+                    g2 = dict(g)
+                    g2[key] = g[key][:k] + g[key][k + 1:]
+                    yield (case[0], tuple(sorted(g2.items())))
 
     @staticmethod
     def variant(case):
@@ -1222,6 +1239,8 @@ class SeqCases:
             for c in super().shrink(case[2]):
                 if var_ok(self.variant(case), c):
                     yield (case[0], case[1], c)
+        elif case[0] in self.WORLD:
+            yield from self.world_shrink(case)
         elif case[0] == "run":
             for c in super().shrink(case):
                 if waiters_ok(c):
@@ -1237,6 +1256,11 @@ class SeqCases:
 
     def features(self, case, obs):
         f = super().features(self.base(case), obs)
+        if case[0] in self.WORLD:
+            g = dict(case[1])
+            f.append("world:" + case[0])
+            for op in g["ops"]:
+                f.append("world-op:" + op[2][0] + (":fresh-equal-object" if op[2][0] == "remove" and op[2][2] else ""))
         if case[0] in ("seq", "var"):
             v = self.variant(case)
             f.append("variant:" + ("ado+" + v[1][0] if v[0] == "ado" else v[0]))
@@ -1246,6 +1270,63 @@ class SeqCases:
 
 
 # --------------------------------------------------------------------------- C30: HISTORIES of runs on one Doist, all-do vs all-ado vs mixed
+
+def run_hist_prebuilt(case, steps):
+    """as run_hist all through ado, but the k coroutine OBJECTS are built first (`runs = [doist.ado(...), doist.ado(...)]`) and awaited
+    afterwards, in order, in one event loop: calling an `async def` must not do anything before it is awaited"""
+    import asyncio
+    import gc
+    core.assert_tree()
+    _, tock, start, limit, pool, specs = case[:6]
+    rec = S.Rec()
+    out = []
+    gc_was = gc.isenabled()
+    gc.disable()
+    try:
+        doers = [S.build(rec, sp, 0) for sp in specs]
+        rec.pools[0] = [S.build(rec, sp, 0) for sp in pool]
+        doist = S.make_doist(rec, tock, start, None)
+        rec.sched[0] = doist
+        coros = []
+        for which, limarg, tymearg, pre in steps:
+            kw = {}
+            if which != "keep":
+                kw["doers"] = list(doers) if which == "all" else (doers[:1] if which == "first" else doers[1:])
+            if limarg is not None:
+                kw["limit"] = limarg
+            if tymearg is not None:
+                kw["tyme"] = tymearg
+            coros.append(doist.ado(**kw))
+        loop = asyncio.SelectorEventLoop()
+        try:
+            for (which, limarg, tymearg, pre), co in zip(steps, coros):
+                n0 = len(rec.log)
+
+                def go():
+                    if pre:
+                        doist.doers = doers[:1]
+                        doist.enter()
+                        if pre == "enter-recur":
+                            doist.recur()
+                    loop.run_until_complete(co)
+                raised, n = _classify(rec, go)
+                gc.collect(1)
+                ids = sorted(rec.obj)
+                leaf0 = S.Leaf(rec, ("leaf", -1, "doify", "ok", []), 0)
+                out.append(dict(trace=rec.log[n0:n], late=rec.log[n:], flags=[(i, bool(rec.obj[i].done)) for i in ids], done=bool(doist.done),
+                                tyme=doist.tyme, raised=raised, doers=leaf0.ids_of(doist.doers), limit=doist.limit, ndeeds=len(doist.deeds)))
+                if raised == "other:Runaway":
+                    break
+        finally:
+            for co in coros:
+                if hasattr(co, "close"):
+                    co.close()
+            loop.close()
+    finally:
+        if gc_was:
+            gc.enable()
+    return out
+
 
 def run_hist(case, steps, modes):
     """One Doist object (constructed WITHOUT a limit), the doer objects of `case` built once, then one run per step; step k is executed
@@ -1564,6 +1645,296 @@ def skeleton_focus():
     if "tymer" in words and "limit" not in foci:
         foci.append("limit")
     return foci
+
+
+# --------------------------------------------------------------------------- a small WORLD of own doers with the dynamic API (oracle only)
+
+def gen_world(rng, kind):
+    """kind "dyn": a flat Doist whose FIRST doer (enter order) re-sets the scheduler's tock / fast-forwards its tyme in mid cycle (C03);
+    kind "pair": members + pool + remove/extend ops, to be applied to the Doist (flat) and to a tock-0 group DoDoer (nested) alike (C04):
+    removes name doers by an EQUAL-BUT-NOT-IDENTICAL object (a bound method fetched afresh), extends re-offer completed members"""
+    r = rng
+    tock = r.choice([1.0, 0.5, 0.25, 0.1, 0.3])
+    start = r.choice([0.0, 0.0, 1.0, 2.5, 0.3])
+    asap = lambda: r.choice([0.0, 0.0, None])
+    pos = lambda: r.choice([tock, 2 * tock, 0.5 * tock, 0.3, 1.5 * tock])
+
+    def script():                       # positive* asap* (G04), so that the F46 known finding does not interfere
+        k = r.choice([0, 0, 1, 2])
+        return [pos() for _ in range(k)] + [asap() for _ in range(r.choice([1, 2, 3, 5, 8]))]
+    n = r.choice([2, 3, 3, 4])
+    styles = ["fn", "fn", "bound", "bound", "doizebound", "doer"]
+    doers = [(k + 1, r.choice(styles), script()) for k in range(n)]
+    p = dict(tock=tock, start=start, limit=r.choice([6 * tock, 10 * tock, 15 * tock]), doers=doers, pool=[], ops=[])
+    if kind == "dyn":
+        ops = []
+        for _ in range(r.choice([1, 1, 2])):
+            what = r.choice(["settock", "settock", "settyme"])
+            val = r.choice([tock / 4, tock / 2, 2 * tock, 0.25, 0.1]) if what == "settock" else None
+            ops.append((1, r.choice([1, 2, 3]), (what, val if what == "settock" else r.choice([3 * tock, 5.5 * tock, 1.0]))))   # settyme: forward by
+        p["doers"] = [(1, doers[0][1], [asap() for _ in range(r.choice([4, 6, 9]))])] + doers[1:]
+        p["ops"] = ops
+    else:
+        p["pool"] = [(50 + k, r.choice(styles), script()) for k in range(r.choice([0, 1, 2]))]
+        ids = [d[0] for d in doers]
+        ops = []
+        for _ in range(r.choice([1, 2, 3])):
+            actor = r.choice(ids)
+            if r.random() < 0.5:
+                tgt = [r.choice(ids) for _ in range(r.choice([1, 1, 2]))]
+                ops.append((actor, r.choice([1, 2, 3]), ("remove", tgt, r.random() < 0.7)))
+            else:
+                tgt = [r.choice(ids + [q[0] for q in p["pool"]]) for _ in range(r.choice([1, 2, 3]))]
+                ops.append((actor, r.choice([2, 3, 4, 6]), ("extend", tgt)))
+        p["ops"] = ops
+        # make re-extension of a COMPLETED member likely: one short member, one long actor that extends it late
+        if r.random() < 0.6 and len(doers) >= 2:
+            p["doers"] = [(doers[0][0], doers[0][1], [asap()])] + [(doers[1][0], doers[1][1], [asap() for _ in range(9)])] + doers[2:]
+            p["ops"] = ops + [(doers[1][0], r.choice([4, 5, 6]), ("extend", [doers[0][0]] + [q[0] for q in p["pool"]][:1]))]
+    return tuple(sorted(p.items()))
+
+
+def run_world(params, nested=False, mode="do"):
+    """REAL code: own logging doers (doify function / doify-ed and doize-d bound methods / Doer subclass); ops are issued by a doer during
+    its n-th recur on ITS scheduler: the Doist when flat, the tock-0 DoDoer holding all members when nested"""
+    import asyncio
+    import gc
+    import types
+    from hio.base import doing
+    core.assert_tree()
+    p = dict(params)
+    log = []
+    obj = {}
+    holder = {}
+    ops = {}
+    for actor, n, op in p["ops"]:
+        ops.setdefault((actor, n), []).append(op)
+
+    def fresh(o):
+        """an equal but not identical way to name the same doer (what `obj.method` gives on every access)"""
+        if isinstance(o, types.MethodType):
+            return types.MethodType(o.__func__, o.__self__)
+        return o
+
+    def do_ops(i, n):
+        sch = holder["sched"]
+        for op in ops.get((i, n), ()):
+            if op[0] == "settock":
+                holder["doist"].tock = op[1]
+            elif op[0] == "settyme":
+                holder["doist"].tyme = holder["doist"].tyme + op[1]
+            elif op[0] == "remove":
+                sch.remove([fresh(obj[t]) if op[2] else obj[t] for t in op[1] if t in obj])
+                log.append((0, "doers", holder["doist"].tyme, tuple(idof(d) for d in sch.doers)))
+            elif op[0] == "extend":
+                sch.extend([fresh(obj[t]) if (t % 2) else obj[t] for t in op[1] if t in obj])
+                log.append((0, "doers", holder["doist"].tyme, tuple(idof(d) for d in sch.doers)))
+
+    def idof(d):
+        return next((k for k, o in obj.items() if o == d), -1)
+
+    def mk(i, style, ys):
+        def body(tymth, tock):
+            n = 0
+            term = "clean"
+            log.append((i, "enter", tymth()))
+            try:
+                sent = yield tock
+                while True:
+                    n += 1
+                    log.append((i, "recur", sent, ("tymth", tymth())))
+                    do_ops(i, n)
+                    if n > len(ys):
+                        break
+                    sent = yield ys[n - 1]
+            except GeneratorExit:
+                term = "cease"
+            except Exception:
+                term = "abort"
+                raise
+            finally:
+                log.append((i, term, tymth()))
+                log.append((i, "exit", tymth()))
+            return True
+        if style == "fn":
+            def fn(tymth=None, tock=0.0, **opts):
+                return (yield from body(tymth, tock))
+            return doing.doify(fn, name=f"f{i}")
+        if style in ("bound", "doizebound"):
+            class H:
+                def run(self, tymth=None, tock=0.0, **opts):
+                    return (yield from body(tymth, tock))
+            if style == "doizebound":
+                H.run = doing.doize()(H.run)
+                return H().run               # a bound method of a doize-d function: every access gives a new, equal object
+            return doing.doify(H().run, name=f"m{i}")
+
+        class D(doing.Doer):
+            def recur(self, tock=None):
+                return (yield from body2(self))
+
+        def body2(self):
+            n = 0
+            sent = yield self.tock
+            while True:
+                n += 1
+                log.append((i, "recur", sent, ("tymth", self.tymth())))
+                do_ops(i, n)
+                if n > len(ys):
+                    return True
+                sent = yield ys[n - 1]
+        d = D()
+        d.enter = lambda temp=None, _d=d: log.append((i, "enter", _d.tyme))
+        d.clean = lambda _d=d: log.append((i, "clean", _d.tyme))
+        d.cease = lambda _d=d: log.append((i, "cease", _d.tyme))
+        d.abort = lambda ex=None, _d=d: log.append((i, "abort", _d.tyme))
+        d.exit = lambda _d=d: log.append((i, "exit", _d.tyme))
+        return d
+
+    for i, style, ys in list(p["doers"]) + list(p["pool"]):
+        obj[i] = mk(i, style, ys)
+    members = [obj[d[0]] for d in p["doers"]]
+    doist = doing.Doist(tock=p["tock"], tyme=p["start"], limit=p["limit"])
+    holder["doist"] = doist
+    if nested:
+        group = doing.DoDoer(doers=members, tock=0.0)
+        holder["sched"] = group
+        top = [group]
+    else:
+        holder["sched"] = doist
+        top = members
+    cycles = [0]
+    orig = doist.recur
+
+    def recur(*pa, **kw):
+        cycles[0] += 1
+        if cycles[0] > 3000:
+            raise S.Runaway("too many cycles")
+        return orig(*pa, **kw)
+    doist.recur = recur
+
+    class R:
+        dead = False
+    rec = R()
+    rec.log = log
+    gc_was = gc.isenabled()
+    gc.disable()
+    try:
+        def go():
+            if mode == "do":
+                doist.do(doers=top)
+            else:
+                loop = asyncio.SelectorEventLoop()
+                try:
+                    loop.run_until_complete(doist.ado(doers=top))
+                finally:
+                    loop.close()
+        raised, n = _classify(rec, go)
+        gc.collect(1)
+    finally:
+        if gc_was:
+            gc.enable()
+    sch = holder["sched"]
+    return dict(trace=log[:n], late=log[n:], flags=[(i, bool(o.done)) for i, o in sorted(obj.items())], done=bool(doist.done),
+                tyme=doist.tyme, tock=doist.tock, raised=raised, doers=[idof(d) for d in sch.doers], cycles=cycles[0])
+
+
+def simulate_world(params):
+    """the documented cycle model with the scheduler's tyme and tock READ WHEN USED (a doer may change them in mid cycle): expected
+    (id, kind, tyme) events of a FLAT world without extend/remove, and the final tyme"""
+    p = dict(params)
+    ops = {}
+    for actor, n, op in p["ops"]:
+        ops.setdefault((actor, n), []).append(op)
+    tyme, tock, start = float(p["start"]), float(p["tock"]), float(p["start"])
+    ev = [(d[0], "enter", tyme) for d in p["doers"]]
+    deeds = [[d[0], tyme, 0, d[2]] for d in p["doers"]]
+    stop = start + abs(float(p["limit"]))
+    for _ in range(3000):
+        nxt = []
+        for dd in deeds:
+            i, retyme, n, ys = dd
+            if retyme <= tyme:
+                n += 1
+                ev.append((i, "recur", tyme))
+                for op in ops.get((i, n), ()):
+                    if op[0] == "settock":
+                        tock = float(op[1])
+                    elif op[0] == "settyme":
+                        tyme = tyme + op[1]
+                if n > len(ys):
+                    ev.append((i, "clean", tyme))
+                    ev.append((i, "exit", tyme))
+                    continue
+                y = ys[n - 1]
+                retyme = (tyme + tock) if not y else retyme + y
+            nxt.append([i, retyme, n, ys])
+        deeds = nxt
+        tyme = tyme + tock
+        if not deeds:
+            return ev, tyme, True
+        if tyme >= stop:
+            break
+    for i, _, _, _ in reversed(deeds):
+        ev.append((i, "cease", tyme))
+        ev.append((i, "exit", tyme))
+    return ev, tyme, False
+
+
+def c03_dyn_clauses(params, d):
+    bad = []
+    for e in d["trace"]:
+        if e[1] == "recur" and e[2] != e[3][1]:
+            bad.append("recur-sent-tyme-differs-from-scheduler-tyme")
+            break
+    want, tyme, done = simulate_world(params)
+    got = [tuple(e[:3]) for e in d["trace"] if e[1] != "doers"]
+    if got != want:
+        k = next((n for n, (a, b) in enumerate(zip(got, want)) if a != b), min(len(got), len(want)))
+        kind = (want[k][1] if k < len(want) else got[k][1])
+        bad.append("doer-not-resumed-when-due-under-the-tock-and-tyme-in-force" if kind == "recur" else "events-differ-from-the-cycle-model")
+    if d["tyme"] != tyme or d["done"] != done:
+        bad.append("final-tyme-or-done-differs-from-the-cycle-model")
+    if d["raised"] != "-" or d["late"]:
+        bad.append("raised-or-late-exits")
+    return sorted(set(bad))
+
+
+def c04_pair_clauses(a, b):
+    """flat (a) vs the same members and op script inside one tock-0 DoDoer (b)"""
+    bad = []
+    ta = [tuple(e[:3]) if e[1] != "doers" else e for e in a["trace"]]
+    tb = [tuple(e[:3]) if e[1] != "doers" else e for e in b["trace"]]
+    sel = lambda t, kinds: [e for e in t if e[1] in kinds]
+    if sel(ta, ("enter",)) != sel(tb, ("enter",)):
+        bad.append("enters-differ")
+    if sel(ta, ("recur",)) != sel(tb, ("recur",)):
+        bad.append("recur-steps-differ")
+    if sel(ta, ("cease", "clean", "abort", "exit")) != sel(tb, ("cease", "clean", "abort", "exit")):
+        bad.append("exits-differ")
+    if sel(ta, ("doers",)) != sel(tb, ("doers",)) or a["doers"] != b["doers"]:
+        bad.append("doers-list-differs")
+    if a["flags"] != b["flags"] or a["done"] != b["done"]:
+        bad.append("done-flags-differ")
+    if a["tyme"] != b["tyme"]:
+        bad.append("completion-cycle-differs")
+    if a["raised"] != b["raised"] or len(a["late"]) != len(b["late"]):
+        bad.append("raised-or-late-exits-differ")
+    if not bad and ta != tb:
+        bad.append("event-interleaving-differs")
+    return bad
+
+
+class WorldObs(tuple):
+    def __new__(cls, a, b=None):
+        o = super().__new__(cls, ("unmodelled",))
+        o.a = a
+        o.b = b
+        o.d = a
+        return o
+
+    def __reduce__(self):
+        return (WorldObs, (self.a, self.b))
 
 
 def c30_cancel_clauses(case, j, ref, c):
